@@ -2,7 +2,7 @@
     sequences (with arbitrary edits of the network between the calls), and the logic part of nondegeneracy_test.
     stdlib lists. *)
 From Coq Require Import List NArith ZArith Bool Arith Lia.
-Require SK.proof.C19_Rank.
+Require SK.proof.C19_Rank SK.proof.C17_Nodes.
 From SK Require Import lib.Tok lib.Reach lib.C17_Farkas model.C17_Model model.C19_Model model.C19_Api
                        proof.C17_Proof proof.C19_Proof proof.C19_Complexes.
 Import ListNotations.
@@ -454,3 +454,79 @@ Lemma api_origin_spec o cs sn :
   (s_sum (run_calls o cs ast_init) = Some sn -> exists c, In c cs /\ sn = snap_of o (c_x c)) /\
   (forall x, (forall c, In c cs -> c_x c = x) -> s_sum (run_calls o cs ast_init) = Some sn -> sn = snap_of o x).
 Proof. split; [apply api_origin|intros x; apply api_no_edit_fresh]. Qed.
+
+(* ------------------------------------------------------------------ max_complex_size = the largest molecularity of a reaction side *)
+
+Definition side_total (sd : side) : Z := fold_right (fun p acc => (snd p + acc)%Z) 0%Z sd.
+
+Lemma sum_indicator (x : str) (c : Z) (sp : list str) : NoDup sp -> In x sp ->
+  fold_right Z.add 0%Z (map (fun s => if streqb x s then c else 0%Z) sp) = c.
+Proof.
+  induction sp as [|s sp IH]; intros ND I; [destruct I|]. simpl. inversion ND as [|? ? Hn ND']; subst.
+  destruct I as [E|I]; [subst s|].
+  - rewrite streqb_refl. assert (Z0 : fold_right Z.add 0%Z (map (fun s => if streqb x s then c else 0%Z) sp) = 0%Z).
+    { clear IH ND ND'. induction sp as [|s sp IH]; simpl; [reflexivity|]. rewrite streqb_neq by (intros ->; apply Hn; left; reflexivity).
+      rewrite IH; [reflexivity|]. intros H. apply Hn. right. exact H. }
+    rewrite Z0. lia.
+  - rewrite streqb_neq by (intros ->; contradiction). rewrite (IH ND' I). lia.
+Qed.
+
+Lemma sum_map_plus (f g : str -> Z) sp :
+  fold_right Z.add 0%Z (map (fun s => (f s + g s)%Z) sp) = (fold_right Z.add 0%Z (map f sp) + fold_right Z.add 0%Z (map g sp))%Z.
+Proof. induction sp as [|s sp IH]; simpl; [reflexivity|]. rewrite IH. lia. Qed.
+
+(** a side whose species all belong to the species order has total coefficient = size of its vector *)
+Lemma complex_size_side net iso sd : (forall s, In s (map fst sd) -> In s (species_order net iso)) ->
+  complex_size (side_vec net iso sd) = side_total sd.
+Proof.
+  unfold complex_size, side_vec. induction sd as [|[x c] sd IH]; intros H; simpl.
+  - clear H. induction (species_order net iso) as [|s sp IHs]; simpl; [reflexivity|]. rewrite IHs. reflexivity.
+  - assert (E : map (fun s => if streqb x s then (c + amount s sd)%Z else amount s sd) (species_order net iso)
+              = map (fun s => ((if streqb x s then c else 0) + amount s sd)%Z) (species_order net iso)).
+    { apply map_ext. intros s. destruct (streqb x s); lia. }
+    rewrite E, sum_map_plus, sum_indicator; [|apply SK.proof.C17_Nodes.sp_nodup|apply H; left; reflexivity].
+    rewrite IH; [reflexivity|]. intros s I. apply H. right. exact I.
+Qed.
+
+(** with unique edge ids: max_complex_size of the complexes of a network = the largest total coefficient (molecularity) of a
+    reactant or product side of its reactions *)
+Theorem max_complex_size_molecularity net iso : NoDup (map rid net) -> net <> [] ->
+  let mx := max_complex_size (fst (complex_graph net iso)) in
+  (exists e ro, In e net /\ side_total (side_of ro e) = mx) /\
+  (forall e ro, In e net -> (side_total (side_of ro e) <= mx)%Z).
+Proof.
+  intros ND NE mx. destruct (complexes_spec net iso ND) as (_ & Hin & _).
+  assert (Hsz : forall e ro, In e net -> complex_size (side_vec net iso (side_of ro e)) = side_total (side_of ro e)).
+  { intros e ro I. apply complex_size_side. intros s Is. apply (side_species_in net iso ro e s I Is). }
+  assert (NEc : fst (complex_graph net iso) <> []).
+  { destruct net as [|e net']; [congruence|]. intros E. assert (I : In (side_vec (e :: net') iso (rlhs e)) (fst (complex_graph (e :: net') iso))).
+    { apply Hin. exists e. split; [left; reflexivity|left; reflexivity]. } rewrite E in I. destruct I. }
+  destruct (max_complex_size_spec (fst (complex_graph net iso))) as [_ H]. destruct (H NEc) as ((c & Ic & Ec) & Hle). split.
+  - apply Hin in Ic. destruct Ic as (e & Ie & [->| ->]); [exists e, Reactant|exists e, Product]; (split; [exact Ie|]);
+      unfold mx; rewrite <- Ec; symmetry; [apply (Hsz e Reactant Ie)|apply (Hsz e Product Ie)].
+  - intros e ro Ie. rewrite <- (Hsz e ro Ie). apply Hle. apply Hin. exists e. split; [exact Ie|]. destruct ro; [left|right]; reflexivity.
+Qed.
+
+Example ex_molecularity : max_complex_size (fst (complex_graph C19_Complexes.ex_net [])) = 2%Z /\ side_total [([65%N], 2%Z)] = 2%Z.
+Proof. split; vm_compute; reflexivity. Qed.
+
+(* ------------------------------------------------------------------ the last summary wins *)
+
+Lemma nondeg_keeps_sum o x mis st : s_sum (fst (op_nondeg o x mis st)) = s_sum st.
+Proof.
+  unfold op_nondeg. destruct (negb (o_stoich o)); [reflexivity|]. destruct (s_sum st) eqn:E; [|exact E].
+  destruct (hs_net x); [exact E|]. destruct (nondeg _ _ _ _); [reflexivity|exact E].
+Qed.
+
+(** a call that (re)computes the summary on a network with reactions stores exactly that network, whatever was stored before:
+    compute_summary, compute_crn_deficiency, and run_deficiency_one_algorithm on an object without a summary *)
+Theorem api_summary_current o c st : hs_net (c_x c) <> [] ->
+  (c_op c = OSummary \/ (exists f, c_op c = OCrn f) \/ (c_op c = OOne /\ s_sum st = None)) ->
+  s_sum (fst (apply_op o c st)) = Some (snap_of o (c_x c)).
+Proof.
+  intros NE H. unfold apply_op. destruct H as [->|[(f & ->)| [-> E]]].
+  - unfold op_summary. destruct (hs_net (c_x c)); [congruence|reflexivity].
+  - unfold op_crn, op_summary. destruct (hs_net (c_x c)) eqn:En; [congruence|]. simpl.
+    destruct f; [rewrite nondeg_keeps_sum|]; reflexivity.
+  - unfold op_one. rewrite E. unfold op_summary. destruct (hs_net (c_x c)); [congruence|reflexivity].
+Qed.
